@@ -96,6 +96,7 @@ fn timers() -> RunResult {
         move || {
             let mut pb = ProactorBuilder::new();
             pb.capacity(8);
+            draw_driver(&mut pb);
             let rt = compio_runtime::Runtime::builder().with_proactor(pb).build().expect("runtime");
             rt.block_on(async {
                 let base = Instant::now();
